@@ -1,3 +1,4 @@
+import PngVerif.Model.ScanlinesImpl
 import PngVerif.Model.Util
 import PngVerif.Model.Filter
 /-! Line protocol for C14 (see harness/src/props/c14.rs).
@@ -36,6 +37,20 @@ def c14 (args : List String) : String :=
       match FilterType.ofNat? f with
       | some ft => s!"{ft.toNat} {toHexL (filterImpl ft bpp prev cur)} {toHexL (filtRow ft bpp prev cur)}"
       | none => "bad-op"
+    | _, _, _, _ => "bad-op"
+  | ["image", setting, bpp, rb, rows] =>
+    -- one image / pass / frame: the scanline stream the encoder's row loop emits, and whether the decoder's loop gives the rows back
+    match setting.toNat?, bpp.toNat?, rb.toNat?, parseHexL rows with
+    | some f, some bpp, some rb, some bytes =>
+      if rb = 0 || bytes.length % rb ≠ 0 then "bad-op" else
+      let setting? : Option (Option FilterType) := if f = 5 then some none else (FilterType.ofNat? f).map some
+      match setting? with
+      | none => "bad-op"
+      | some st =>
+        let rws := (List.range (bytes.length / rb)).map fun i => (bytes.drop (i * rb)).take rb
+        let stream := encodeRowsImpl st bpp (List.replicate rb 0) rws
+        let back := decodeRowsImpl bpp rb rws.length [] stream
+        s!"{toHexL stream} {if back == some rws then "inverse" else "not-inverse"}"
     | _, _, _, _ => "bad-op"
   | _ => "bad-op"
 
